@@ -895,7 +895,9 @@ func (e *CEnv) index(base, idx TV) TV {
 		}
 		m := x.heapGet(e.state(), b.Obj).(MapT)
 		k := x.leafTerm(e.coerceKey(idx, mt.Key()).V)
-		return TV{x.liftSelect(m.Val, k, mt.Elem()), mt.Elem()}
+		// NOTE: the stored value irrespective of presence (not Go's zero value for an absent key): guard with has()
+		v := x.liftSelect(m.Val, k, mt.Elem())
+		return TV{v, mt.Elem()}
 	case StrV:
 		return TV{Scalar{x.strByte(b, toI())}, types.Typ[types.Uint8]}
 	}
@@ -1360,6 +1362,19 @@ func (e *CEnv) loc(ex ast.Expr) Ptr {
 	switch n := ex.(type) {
 	case *ast.ParenExpr:
 		return e.loc(n.X)
+	case *ast.SliceExpr:
+		// s[:] — the contents of slice s only (its header is not part of the location)
+		if n.Low != nil || n.High != nil {
+			fail("contract: only s[:] is supported as a contents location")
+		}
+		v := e.deref(e.eval(n.X))
+		sv, ok := v.V.(SliceV)
+		if !ok {
+			fail("contract: s[:] on %T", v.V)
+		}
+		saved := e.extraLocs
+		_ = saved
+		return Ptr{Obj: sv.Obj, Path: sv.Base}
 	case *ast.StarExpr:
 		tv := e.eval(n.X)
 		return tv.V.(Ptr)
